@@ -120,8 +120,12 @@ class ConfigHelpAction(argparse.Action):
     def __call__(self, parser, namespace, values, option_string=None):
         from .prettyprint import pretty_print_dict, PrettyPrintConfig
 
-        header = entrypoint_configurables[parser.prog].__name__
-        config = build_config(parser.prog, True)
+        entrypoint = parser.prog.split(' ')[0]
+        if (entrypoint not in entrypoint_configurables and
+                getattr(parser, 'default_entrypoint', None)):
+            entrypoint = parser.default_entrypoint
+        header = entrypoint_configurables[entrypoint].__name__
+        config = build_config(entrypoint, True)
         pretty_print_dict(
             {
                 header: modify_config_for_print(config),
